@@ -258,7 +258,18 @@ def _run(sc, detail_rhs=False, keep_system=False):
                     evs = [traced.wrap_event(make_event(e, dt), lg, i) for i, e in enumerate(op["events"])]
                 cbs = None
                 if op.get("cbs"):
-                    cbs = [traced.wrap_callback(make_callback(c, dt), lg, i) for i, c in enumerate(op["cbs"])]
+                    cbs = []
+                    for i, c in enumerate(op["cbs"]):
+                        if c["kind"] == "mutatelist":
+                            # a callback that edits the LIST OBJECT the caller passed to integrate() while the run is in progress (it removes
+                            # the first entry at its `at`-th invocation): the run was started with the callbacks given, in that order
+                            def raw(system, _l=cbs, _n=[0], _at=c.get("at", 3)):
+                                _n[0] += 1
+                                if _n[0] == _at and len(_l) > 1:
+                                    del _l[0]
+                            cbs.append(traced.wrap_callback(raw, lg, i))
+                        else:
+                            cbs.append(traced.wrap_callback(make_callback(c, dt), lg, i))
                 fp = lg.fault_plan
                 fp.n = 0
                 fp.k = op.get("fault")
